@@ -623,6 +623,60 @@ example :
   · decide
   · decide
 
+/-! ### The listener built from a Casketfile (stream `c06.loaded`): meaning and spelling
+
+`c06.loaded` feeds a Casketfile through the real loader.  Its case states the MEANING of every site (host pattern in
+lower case = `Site.addrHost` = the TLS config's `hostname`, settings `cfgs`) and, apart from it, how the address is
+WRITTEN (`Site.key`).  The model below is `connectSH` over the meaning; the only place where it reads the written text
+is the routing trie (`Casket.VHost.newServer` inserts `Address.VHost()`, the text as written, and lower-cases it itself). -/
+
+/-- The judged predicate of `c06.loaded` holds of the model for all site sets (however written), settings, server
+names, Hosts and paths: an invalid set is rejected, a valid one answers the handshake under `sni` with the most
+specific site's own settings, and the request for `host` over that connection obeys the strict-SNI clause. -/
+theorem C06_loaded_model_verdict_ok (aesni : Bool) (sites : List Casket.VHost.Site) (cfgs : List Cfg)
+    (sni host path : Bytes) :
+    loadedVerdict aesni cfgs sni ⟨host, path, 1⟩ (connectSH aesni sites cfgs sni host path) = "ok" := by
+  unfold loadedVerdict
+  rw [connectSH_fst, C06_model_verdict_ok]
+  simpa using C06_cross_model_verdict_ok aesni sites cfgs sni host path
+
+/-- Spelling does not matter to the model: two ways of writing the site addresses that the routing trie files alike
+(same host after lower-casing and port removal, same path) and that mean the same host patterns give the same answer
+to every connection — same governing config, same serving site / 403 / not found.  (`cfgs` already is meaning only.) -/
+theorem C06_loaded_spelling_invariant (aesni : Bool) (s1 s2 : List Casket.VHost.Site) (cfgs : List Cfg)
+    (sni host path : Bytes) (h : s1.map siteMeaning = s2.map siteMeaning) :
+    connectSH aesni s1 cfgs sni host path = connectSH aesni s2 cfgs sni host path := by
+  have hn : Casket.VHost.newServer s1 = Casket.VHost.newServer s2 := by
+    unfold Casket.VHost.newServer
+    rw [fallbacks_congr s1 s2 h]
+    exact insertAll_congr s1 s2 h _ _
+  have hr : ∀ r, Casket.VHost.route s1 r = Casket.VHost.route s2 r := by
+    intro r; unfold Casket.VHost.route; rw [hn]
+  have hs : ∀ r o, serveTLS s1 cfgs r o = serveTLS s2 cfgs r o := by
+    intro r o; unfold serveTLS; rw [hr]
+  unfold connectSH
+  simp only [hs]
+
+/-- the seeded regression's site set, written `B.A.COM:443` / `HTTPS://B.a.Com` / `b.a.com:https` + `*.a.com:443`: the
+hypothesis of `C06_loaded_spelling_invariant` holds against the canonical spelling, and under SNI = Host = `b.a.com`
+the exact-name site's own config (client certificates demanded) governs and that site serves -/
+def exUpperSite : Casket.VHost.Site := ⟨[66, 46, 65, 46, 67, 79, 77, 58, 52, 52, 51], false, [98, 46, 97, 46, 99, 111, 109]⟩
+def exSchemeSite : Casket.VHost.Site :=
+  ⟨[72, 84, 84, 80, 83, 58, 47, 47, 66, 46, 97, 46, 67, 111, 109], false, [98, 46, 97, 46, 99, 111, 109]⟩
+def exServiceSite : Casket.VHost.Site :=
+  ⟨[98, 46, 97, 46, 99, 111, 109, 58, 104, 116, 116, 112, 115], false, [98, 46, 97, 46, 99, 111, 109]⟩
+def exSpecificAuth : Cfg := { exSpecific with clientAuth := 4, clientCerts := [0] }
+def exWildOpen : Cfg := { exWild with clientAuth := 0, clientCerts := [] }
+
+example :
+    [exUpperSite, exWildSite].map siteMeaning = [exSpecificSite, exWildSite].map siteMeaning ∧
+    [exSchemeSite, exWildSite].map siteMeaning = [exSpecificSite, exWildSite].map siteMeaning ∧
+    [exServiceSite, exWildSite].map siteMeaning = [exSpecificSite, exWildSite].map siteMeaning := by decide
+
+example :
+    (match connectSH true [exUpperSite, exWildSite] [exSpecificAuth, exWildOpen] [98, 46, 97, 46, 99, 111, 109] [98, 46, 97, 46, 99, 111, 109] [47] with
+      | (.cfg j b, v) => (j, b.clientAuth, v) | _ => (9, 9, .notFound 0)) = (0, 4, .site 0) := by decide
+
 /-! ### The `tls` block: directive → Config (`setupTLS`, stream `c06.setup`; through the loader to a
 listener and a real handshake: stream `c06.listener`) -/
 
